@@ -101,6 +101,7 @@ struct SiteServer : public HttpServer
 		vj::Value c = it->second.c;
 		std::string kind = it->second.kind;
 		pthread_mutex_unlock(&g_mu);
+		maybeStall();
 		Visit v;
 		v.method = stdstr(req.method());
 		v.path = stdstr(req.path());
@@ -183,6 +184,7 @@ struct RulesServer : public HttpServer
 	void serve(HttpRequest& req, HttpResponse& resp)
 	{
 		long id = atol(*req.header("X-Case"));
+		maybeStall();
 		Visit v;
 		v.method = stdstr(req.method());
 		v.path = stdstr(req.path());
@@ -278,7 +280,8 @@ struct RedirObs
 	std::string locForm; // Location of the response the client got: "none" / "abs" / "rel" / "other"
 	int locTo;
 	bool locQ;
-	RedirObs() : code(0), node(0), locTo(0), locQ(false) {}
+	long ms;           // wall time of the whole call
+	RedirObs() : code(0), node(0), locTo(0), locQ(false), ms(0) {}
 };
 
 // c: {site:[{code,to,form,q}], call:{method,follow,blen}}
@@ -291,9 +294,12 @@ static inline RedirObs runRedirect(const vj::Value& c)
 	req.setHeader("X-Case", String((int)id));
 	ByteArray sent = makeBody(call["blen"].i(), 7);
 	if (call["blen"].i() > 0) req.put(sent);
+	long t0 = monoMs();
 	HttpResponse res = Http::request(req);
+	long ms = monoMs() - t0;
 	std::vector<Visit> vs = unregCase(id);
 	RedirObs o;
+	o.ms = ms;
 	for (size_t i = 0; i < vs.size(); i++)
 	{
 		RedirObs::V v;
@@ -336,6 +342,15 @@ static inline unsigned long long sentBodyHash(int blen) { return hashOf(makeBody
 // =====================================================================================================================
 // raw client
 // =====================================================================================================================
+// How long the raw client waits for input before it gives up.  poll() returns as soon as data or the end of the stream arrives,
+// so these only bound a silent peer; they are far above the library's own limits (5 s / 10 s) so that they are never the first
+// thing to fire (the recorder marks exchanges that took C10_SLOW_MS or longer; the replayer has its per-case time limit).
+static const int RAW_WAIT_MS = 120000;        // response head, body of known length
+static const int RAW_PROBE_WAIT_MS = 60000;   // answer to the probe that tells whether the connection is still served
+// Only reached by a response without Content-Length (the unchanged library never sends one here): `unclosed` = the server did
+// not end such a body by closing within this time.  Deliberately NOT raised: a connection lives at most 10 s on the server, so a
+// longer wait would always see it closed and the observation could not be made any more.
+static const int RAW_UNCLOSED_MS = 2500;
 struct RawConn
 {
 	int fd;
@@ -453,12 +468,15 @@ struct RulesObs
 		std::string hmethod;
 		long hblen;
 		unsigned long long hbh;
-		X() : code(-1), blen(-1), bh(0), unclosed(false), handlerRuns(0), hblen(0), hbh(0) {}
+		long ms;                        // wall time from just before connect() until this observation was complete
+		X() : code(-1), blen(-1), bh(0), unclosed(false), handlerRuns(0), hblen(0), hbh(0), ms(0) {}
 	};
 	std::vector<X> xs;
-	int open;      // after the last exchange: 1 = a further request was answered, 0 = the server closed, -1 = neither (silent)
+	int open;      // after the last exchange: 1 = a further request was answered, 0 = the server closed, -1 = neither (silent),
+	               // -2 = not decided: the connection was abandoned because it took slowMs or longer (recorder only)
+	long endMs;    // wall time from just before connect() until `open` was decided
 	std::string note;
-	RulesObs() : open(-1) {}
+	RulesObs() : open(-1), endMs(0) {}
 };
 static inline std::string connValue(const std::string& conn, int cap)
 {
@@ -469,13 +487,18 @@ static inline std::string connValue(const std::string& conn, int cap)
 static inline unsigned long long rulesReqBodyHash(int blen, int seq) { return hashOf(makeBody(blen, 60 + seq)); }
 static inline unsigned long long rulesRespBodyHash(int blen, int seq) { return hashOf(makeBody(blen, 40 + seq)); }
 
-// c: {cfg:{cors,extra}, hist:[{req:{...}}]}; plays the requests in order on one connection
-static inline RulesObs runRules(const vj::Value& c)
+// c: {cfg:{cors,extra}, hist:[{req:{...}}]}; plays the requests in order on one connection.
+// slowMs > 0 (recorder): HttpServer closes a connection 10 s after accepting it and after 5 s / 10 s without data, so once the
+// connection is slowMs old what the server does next is no longer a function of the requests: the history is abandoned right
+// after the exchange that crossed the limit (xs ends there) and open = -2.
+static inline RulesObs runRules(const vj::Value& c, long slowMs = 0)
 {
 	RulesObs o;
 	int port = rulesPort(c["cfg"]);
 	long id = regCase(c, "rules");
 	RawConn k;
+	long t0 = monoMs();
+	bool abandoned = false;
 	if (!k.open(port)) { o.note = "connect failed"; unregCase(id); return o; }
 	const vj::Value& hist = c["hist"];
 	bool dead = false;
@@ -497,13 +520,19 @@ static inline RulesObs runRules(const vj::Value& c)
 		ByteArray body = makeBody(r["blen"].i(), 60 + seq);
 		std::string bodys((const char*)body.data(), (size_t)body.length());
 		bool bodySent = false;
+		if (!expect && !bodys.empty() && stallNow()) // (demonstration only: an 11 s pause between the head and the body)
+		{
+			if (!k.sendAll(msg)) { o.note = "send failed"; dead = true; }
+			usleep(11000000);
+			msg = "";
+		}
 		if (!expect) { msg += bodys; bodySent = true; }
-		if (!k.sendAll(msg)) { o.note = "send failed"; dead = true; }
+		if (!dead && !k.sendAll(msg)) { o.note = "send failed"; dead = true; }
 		// responses: 1xx heads until the final one
 		while (!dead)
 		{
 			std::string head;
-			if (!k.readHead(head, 15000)) { dead = true; break; }
+			if (!k.readHead(head, RAW_WAIT_MS)) { dead = true; break; }
 			RawHead h = parseHead(head);
 			if (h.code >= 100 && h.code < 200)
 			{
@@ -516,12 +545,12 @@ static inline RulesObs runRules(const vj::Value& c)
 			std::string rb;
 			if (h.h.count("content-length"))
 			{
-				if (!k.readN(rb, (size_t)atol(h.h["content-length"].c_str()), 15000)) { dead = true; break; }
+				if (!k.readN(rb, (size_t)atol(h.h["content-length"].c_str()), RAW_WAIT_MS)) { dead = true; break; }
 			}
 			else
 			{
 				// no length: the body is whatever arrives until the server closes
-				k.waitClosed(2500);
+				k.waitClosed(RAW_UNCLOSED_MS);
 				rb = k.in;
 				k.in.clear();
 				x.unclosed = !k.eof;
@@ -531,18 +560,23 @@ static inline RulesObs runRules(const vj::Value& c)
 			x.bh = hashOf(rb);
 			break;
 		}
+		x.ms = monoMs() - t0;
 		o.xs.push_back(x);
+		if (slowMs > 0 && x.ms >= slowMs) { abandoned = true; break; }
 	}
 	// is the connection still served?
-	if (o.xs.empty() || o.xs.back().code < 0) o.open = -1;
+	if (abandoned) o.open = -2;
+	else if (o.xs.empty() || o.xs.back().code < 0) o.open = -1;
 	else
 	{
 		std::string probe = "GET /h HTTP/1.1\r\nHost: 127.0.0.1\r\nX-Case: " + std::to_string(id) + "\r\nX-Seq: 99\r\nX-Code: 200\r\nX-Blen: 0\r\nConnection: close\r\n\r\n";
 		std::string head;
 		if (k.eof) o.open = 0;
-		else if (k.sendAll(probe) && k.readHead(head, 8000) && parseHead(head).code == 200) o.open = 1;
+		else if (k.sendAll(probe) && k.readHead(head, RAW_PROBE_WAIT_MS) && parseHead(head).code == 200) o.open = 1;
 		else o.open = k.eof ? 0 : -1;
 	}
+	o.endMs = monoMs() - t0;
+	if (slowMs > 0 && o.endMs >= slowMs) o.open = -2;
 	std::vector<Visit> vs = unregCase(id);
 	for (size_t i = 0; i < vs.size(); i++)
 	{
@@ -569,7 +603,8 @@ struct StaticObs
 		long lm;
 		long blen;
 		int bf, bver, bfrom;   // which file content the body is (bf = 0: none of the tree's / empty body)
-		G() : code(0), hasLM(false), lmOk(false), hasDate(false), dateOk(false), hasCC(false), hasLoc(false), locHere(false), lm(-1), blen(0), bf(0), bver(0), bfrom(0) {}
+		long ms;               // wall time of the request
+		G() : code(0), hasLM(false), lmOk(false), hasDate(false), dateOk(false), hasCC(false), hasLoc(false), locHere(false), lm(-1), blen(0), bf(0), bver(0), bfrom(0), ms(0) {}
 	};
 	std::vector<G> gets;   // one per "get" operation, in order
 };
@@ -664,8 +699,10 @@ static inline StaticObs runStatic(const vj::Value& c, bool ownRoot = false)
 				req.setHeader("Range", e < 0 ? String::f("bytes=%i-", b) : String::f("bytes=%i-%i", b, e));
 			}
 			if (!r["cc"].s().empty()) req.setHeader("X-Set-CC", r["cc"].s().c_str());
+			long t0 = monoMs();
 			HttpResponse res = Http::request(req);
 			StaticObs::G g;
+			g.ms = monoMs() - t0;
 			g.code = res.code();
 			g.ctype = stdstr(res.header("Content-Type"));
 			g.hasLM = res.hasHeader("Last-Modified");
@@ -719,7 +756,8 @@ struct XferObs
 	int progressCalls, progressLast, progressTotal;
 	bool progressMono;
 	std::string sent;          // upload: the bytes of the file on disk
-	XferObs() : ret(false), calls(0), fileExists(false), progressCalls(0), progressLast(-1), progressTotal(-1), progressMono(true) {}
+	long ms;                   // wall time of the client's call
+	XferObs() : ret(false), calls(0), fileExists(false), progressCalls(0), progressLast(-1), progressTotal(-1), progressMono(true), ms(0) {}
 };
 struct ProgressSink
 {
@@ -760,6 +798,7 @@ static inline XferObs runTransfer(const vj::Value& c)
 	Dic<> hdrs;
 	hdrs["X-Case"] = String((int)id);
 	std::string dir = g_root + "/x" + std::to_string(id);
+	long t0 = 0;
 	if (kind == "upload")
 	{
 		const vj::Value& u = c["up"];
@@ -776,6 +815,7 @@ static inline XferObs runTransfer(const vj::Value& c)
 			o.sent = buf;
 		}
 		if (u["ctype"].size()) hdrs["Content-Type"] = String(u["ctype"].bytes().c_str());
+		t0 = monoMs();
 		o.ret = Http::upload(siteUrl("/x").c_str(), path.c_str(), hdrs);
 	}
 	else if (kind == "download")
@@ -785,12 +825,15 @@ static inline XferObs runTransfer(const vj::Value& c)
 		std::string path = dir + "/target.bin";
 		for (size_t i = 0; i < d["headers"].size(); i++) hdrs[String(d["headers"][i][0].bytes().c_str())] = String(d["headers"][i][1].bytes().c_str());
 		ProgressSink ps = { &o };
+		t0 = monoMs();
 		o.ret = Http::download(siteUrl("/x").c_str(), path.c_str(), ps, hdrs);
+		o.ms = monoMs() - t0;
 		o.fileContent = readWhole(path, o.fileExists);
 	}
 	else if (kind == "body")
 	{
 		const vj::Value& b = c["body"];
+		t0 = monoMs();
 		if (b["kind"].s() == "json") o.ret = Http::post(siteUrl("/x").c_str(), jsonValue(b["json"].i()), hdrs).ok();
 		else
 		{
@@ -800,6 +843,7 @@ static inline XferObs runTransfer(const vj::Value& c)
 	}
 	else if (kind == "text")
 	{
+		t0 = monoMs();
 		HttpResponse res = c["dir"].s() == "req" ? Http::post(siteUrl("/x").c_str(), String(c["text"].bytes().c_str()), hdrs) : Http::get(siteUrl("/x").c_str(), hdrs);
 		o.ret = res.ok();
 		o.clientText = stdstr(res.text());
@@ -807,8 +851,10 @@ static inline XferObs runTransfer(const vj::Value& c)
 	else if (kind == "route")
 	{
 		HttpRequest req(c["route"]["method"].s().c_str(), siteUrl(c["target"].bytes()).c_str(), hdrs);
+		t0 = monoMs();
 		o.ret = Http::request(req).ok();
 	}
+	if (kind != "download") o.ms = monoMs() - t0;
 	std::vector<Visit> vs = unregCase(id);
 	o.calls = (int)vs.size();
 	if (!vs.empty()) o.v = vs.back();
